@@ -1,0 +1,15 @@
+//go:build verif
+
+package batch
+
+// Contracts for the verifier in /verif (build tag verif; comment-only).
+
+// C20: every call the batcher takes off its queue ends up in a batch (Add) or is failed
+// (failCall), on every path, before the loop takes the next call or the goroutine ends.
+// Structural clause, decided on the SSA form: the select statements and the goroutine are
+// outside the subset the condition generator executes, so the body itself is trusted.
+//@ func batcherImpl.Run(b)
+//@ property C20
+//@ trusted
+//@ received callC handledby Add, failCall
+//@ modifies *
